@@ -37,6 +37,18 @@ class DataBool:
 
 # input registry: name -> dict(digits=[sizes], axes=[[digit positions]], dtype=..)
 INPUTS = {}
+# opaque scalars: name -> (opname, operand GTensor); e.g. max over all entries.  They are uninterpreted in proofs
+# (only their provenance is used) and evaluated from their operand in concretisation.
+OPAQUE = {}
+_opq = itertools.count()
+
+
+def opaque_scalar(op, operand, dtype=None):
+    name = f"{op.upper()}#{next(_opq)}"
+    OPAQUE[name] = (op, operand)
+    X.REAL_INPUTS.add(name)
+    INPUTS[name] = dict(digits=[], axes=[], dtype=dtype or operand.dtype)
+    return GTensor([], X.entry(name, ()), dtype or operand.dtype)
 PRIM_LOG = []  # names of primitives applied (for frame obligations)
 
 
@@ -947,6 +959,9 @@ def eval_term(t, free, env, inputs):
     val = np.ones([1] * nd, dtype=float) * float(t.coef) if nd else np.array(float(t.coef))
     for a, ex in t.facs:
         k = a[0]
+        if k == "E" and a[1] in OPAQUE and a[1] not in inputs:
+            op, operand = OPAQUE[a[1]]
+            inputs[a[1]] = {"max": np.max, "min": np.min}[op](evaluate(operand, env, inputs))
         if k == "E":
             arr = np.asarray(inputs[a[1]])
             dig = [builtins.int(SInt.lift(s).subs(env)) for s in INPUTS[a[1]]["digits"]]
